@@ -112,7 +112,7 @@ def c14 (op : String) (a : Array Json) : R (Option Json) := do
     pure (some (exceptJ arrJ (cooCtor c d s f)))
   | "npz_witnesses" =>
     -- the concrete member sets named in Props/C14.lean's statements (data lives next to the model, not in Props)
-    pure (some (okJ (Json.mkObj [("unchecked_contents", membersJ uncheckedWitness)])))
+    pure (some (okJ (Json.mkObj [("row_order_unchecked", membersJ rowOrderWitness)])))
   | "npz_roundtrip" =>
     let x ← jArr (← arg a 1)
     pure (some (exceptJ arrJ (roundtrip strictlyIncreasing x)))
